@@ -166,14 +166,17 @@ def d2(chk, prog):
     tb2.done("do_reference_flat does not store the flat profile / its depth on every bin")
 
 
-def pool_arrays(n_files, style="chr", gene_differs=None, coord_differs=None, with_depth=True, off_by_one=None):
+def pool_arrays(n_files, style="chr", gene_differs=None, coord_differs=None, with_depth=True, off_by_one=None, low=False, with_gc=False):
     """the .cnn tables of a pool: same bins (autosome, X, Y), symbolic per-file log2 / depth"""
     out = {}
     for k in range(n_files):
         rows = []
         for i, c in enumerate(("auto", "x", "y")):
             # coordinates of real magnitude (150 Mb): a one-base difference is 7e-9 of the value
-            r = dict(chromosome=chrom(c, style), start=150_000_000 + 1000 * i, end=150_000_000 + 1000 * i + 500, gene=f"g{i}", log2=Term.sym(f"L{k}_{c}"))
+            r = dict(chromosome=chrom(c, style), start=150_000_000 + 1000 * i, end=150_000_000 + 1000 * i + 500, gene=f"g{i}",
+                     log2=Term.sym(f"L{k}_{c}", -INF if low else -10, -16 if low else 10))          # ordinary coverage / (low) placeholder values of bins without reads
+            if with_gc:
+                r["gc"] = Term.sym(f"GC_{c}", 0, 1)
             if with_depth:
                 r["depth"] = Term.sym(f"D{k}_{c}", 0, INF)
             rows.append(r)
@@ -187,20 +190,46 @@ def pool_arrays(n_files, style="chr", gene_differs=None, coord_differs=None, wit
     return out
 
 
-def run_block(prog, fnames, arrays_by_name, hap, par, sexes, skip_low, fix_gc, fix_edge, fix_rmask):
+def run_block(prog, fnames, arrays_by_name, hap, par, sexes, skip_low, fix_gc, fix_edge, fix_rmask, fasta=None):
+    """load_sample_block interpreted whole; what happens to each sample is recorded at the calls it ends in -- the table's own center_all, the
+    module's shift_sex_chroms and fix.center_by_window -- so the harness does not depend on how the per-sample steps are bundled in between"""
     model = par_model()
-    ev = dict(read=[], bias=[], stacks=[])
+    ev = dict(read=[], bias=[], stacks=[], edge_calls=[])
     model.prims["cnvlib.cmdutil.read_cna"] = lambda it, f, *a, **k: ev["read"].append(f) or arrays_by_name[f]
-    model.prims["cnvlib.fix.get_edge_bias"] = lambda it, arr, margin: ("EDGE_BIAS", arr, margin)
 
-    def bias(it, cnarr, ref_columns, ref_edge_bias, ref_flat_logr, sexes_, is_chr_x, is_chr_y, fg, fe, fr, sl, pg):
-        ev["bias"].append(dict(arr=cnarr, cols=sorted(ref_columns), edge=ref_edge_bias, flat=list(ref_flat_logr.v), sexes=sexes_, x=list(is_chr_x.v), y=list(is_chr_y.v),
-                               flags=(fg, fe, fr, sl), par=pg))
-        return ("CORRECTED", cnarr.meta.get("sample_id"))
-    model.prims[f"{REF}.bias_correct_logr"] = bias
+    def edge_bias(it, arr, margin):
+        ev["edge_calls"].append((arr, margin))
+        return ("EDGE_BIAS", arr, margin)
+    model.prims["cnvlib.fix.get_edge_bias"] = edge_bias
+
+    def center_all(it, obj, *a, **k):
+        names = ["estimator", "by_chrom", "skip_low", "verbose", "diploid_parx_genome"]
+        k = dict(zip(names, a), **k)
+        ev["bias"].append(dict(arr=obj, center=k, windows=[], flags=None, par=k.get("diploid_parx_genome"), skip_low=k.get("skip_low", False), estimator=k.get("estimator"), by_chrom=k.get("by_chrom", True)))
+        return None
+    model.method_prims["center_all"] = center_all
+
+    def shift(it, arr, sexes_, flat, is_x, is_y):
+        cur = next((e for e in reversed(ev["bias"]) if e["arr"] is arr), None)
+        if cur is None:
+            raise Raised("OrderError", "a sample's sex chromosomes are shifted before the sample was centred")
+        if cur["windows"]:
+            raise Raised("OrderError", "a sample's sex chromosomes are shifted after a bias correction")
+        cur.update(sexes=sexes_, flat=list(flat.v), x=list(is_x.v), y=list(is_y.v), flat_obj=flat, shifted=True)
+        return None
+    model.prims[f"{REF}.shift_sex_chroms"] = shift
+
+    def window(it, arr, frac, key):
+        cur = next((e for e in reversed(ev["bias"]) if e["arr"] is arr), None)
+        if cur is None or not cur.get("shifted"):
+            raise Raised("OrderError", "a bias correction runs before the sample was centred and shifted to the reference sex")
+        cur["windows"].append((frac, key))
+        return arr
+    model.prims["cnvlib.fix.center_by_window"] = window
     model.ext["np.vstack"] = lambda it, rows: ev["stacks"].append(list(rows)) or ("VSTACK", len(ev["stacks"]) - 1)
+    model.prims[f"{REF}.get_fasta_stats"] = lambda it, arr, fa: (ev.setdefault("fasta", []).append((arr, fa)), ("GC_FROM_FASTA", "RMASK_FROM_FASTA"))[1]
     it = Interp(prog, model)
-    out = it.run(f"{REF}.load_sample_block", [list(fnames), None, hap, par, sexes, skip_low, fix_gc, fix_edge, fix_rmask])
+    out = it.run(f"{REF}.load_sample_block", [list(fnames), fasta, hap, par, sexes, skip_low, fix_gc, fix_edge, fix_rmask])
     return out, ev
 
 
@@ -229,19 +258,21 @@ def d3(chk, prog):
 
 
 def d4(chk, prog):
-    chk.clause("D4", "matrix shape: row 0 flat pseudo-sample, other rows bias_correct_logr(sample); sorted file order; centre -> shift -> correct")
+    chk.clause("D4", "matrix shape: row 0 flat pseudo-sample, other rows the samples' corrected log2; sorted file order; per sample centre -> shift -> the enabled corrections")
     fi = prog.fn(f"{REF}.load_sample_block")
-    tb = Table(chk, "matrix-shape", "load_sample_block on a pool of three files (reference sex x PAR genome x flags)", fi.loc(), fi.qn)
+    tb = Table(chk, "matrix-shape", "load_sample_block on a pool of three files (reference sex x PAR genome x flags x GC column x low coverage)", fi.loc(), fi.qn)
     names = ["/d/b.targetcoverage.cnn", "/d/a.targetcoverage.cnn", "/d/c.targetcoverage.cnn"]
-    for hap, par, skip_low, fe, with_depth in itertools.product([False, True], [None, "grch38"], [True, False], [True, False], [True, False]):
+    for hap, par, skip_low, fe, with_depth, fg, low in itertools.product([False, True], [None, "grch38"], [True, False], [True, False], [True, False], [False, True], [False, True]):
+        if low and (with_depth or par):
+            continue                                     # (the low-coverage pool once per flag combination is enough)
         W.reset()
-        arrs = pool_arrays(3, with_depth=with_depth)
+        arrs = pool_arrays(3, with_depth=with_depth, low=low, with_gc=True)
         by_name = {names[k]: arrs[k] for k in range(3)}
         sexes = {"S0": True, "S1": False}
         try:
-            out, ev = run_block(prog, names, by_name, hap, par, sexes, skip_low, False, fe, False)
+            out, ev = run_block(prog, names, by_name, hap, par, sexes, skip_low, fg, fe, False)
         except Raised as e:
-            tb.cell(False, dict(hap=hap, par=par, raised=str(e)))
+            tb.cell(False, dict(hap=hap, par=par, fix_gc=fg, fix_edge=fe, low=low, raised=str(e)))
             continue
         except Undecided as e:
             raise AnalysisError(f"C05-D4: cannot interpret load_sample_block: {e}")
@@ -252,8 +283,11 @@ def d4(chk, prog):
         ok = ev["read"] == order
         logr = ev["stacks"][all_logr[1]] if isinstance(all_logr, tuple) and all_logr[0] == "VSTACK" else None
         deps = ev["stacks"][all_depths[1]] if isinstance(all_depths, tuple) and all_depths[0] == "VSTACK" else None
-        ok = ok and logr is not None and len(logr) == 4 and isinstance(logr[0], Vec) and all(same(a, b) for a, b in zip(logr[0].v, flat)) \
-            and logr[1:] == [("CORRECTED", by_name[f].meta["sample_id"]) for f in order]
+        ok = ok and logr is not None and len(logr) == 4 and isinstance(logr[0], Vec) and all(same(a, b) for a, b in zip(logr[0].v, flat))
+        # rows 1..3: each sample's own log2 after its corrections (the recording stubs leave the values alone), in sample-name order
+        if ok:
+            for row, f in zip(logr[1:], order):
+                ok = ok and isinstance(row, Vec) and len(row.v) == 3 and all(same(a, b) for a, b in zip(row.v, by_name[f].data.cols["log2"].v))
         if deps is not None and ok:
             for row, f in zip(deps, order):
                 a = by_name[f]
@@ -264,41 +298,42 @@ def d4(chk, prog):
             ok = False
         calls = ev["bias"]
         ok = ok and len(calls) == 3 and [c["arr"] for c in calls] == [by_name[f] for f in order]
+        ok = ok and len(ev["edge_calls"]) == 1 and ev["edge_calls"][0][0] is first and same(ev["edge_calls"][0][1], 250)
+        steps = []
         for c in calls:
-            ok = ok and c["x"] == [False, True, False] and c["y"] == [False, False, True] and all(same(a, b) for a, b in zip(c["flat"], flat)) and c["sexes"] is sexes \
-                and c["flags"] == (False, fe, False, skip_low) and c["par"] == par and isinstance(c["edge"], tuple) and c["edge"][1] is first and same(c["edge"][2], 250)
+            # centre on the median of the chromosome medians, with the block's skip_low and PAR genome; then the shift with the pool's masks, flat profile and sexes;
+            # then GC (when the first file brings a gc column and GC correction is on) before the edge correction; nothing when most bins are empty
+            want_windows = [] if low else ([("gc",)] if fg else []) + ([("edge",)] if fe else [])
+            got_windows = [("edge",) if isinstance(k_, tuple) and k_ and k_[0] == "EDGE_BIAS" and k_[1] is first else (("gc",) if isinstance(k_, Vec) and all(same(a_, b_) for a_, b_ in zip(k_.v, first.data.cols["gc"].v)) else ("?", repr(k_)[:30]))
+                           for _fr, k_ in c["windows"]]
+            fracs_ok = all(same(fr_, Fr(1, 10)) for fr_, _k in c["windows"])
+            okc = c.get("shifted") and c["x"] == [False, True, False] and c["y"] == [False, False, True] and all(same(a, b) for a, b in zip(c["flat"], flat)) and c["sexes"] is sexes \
+                and c["skip_low"] == skip_low and c["par"] == par and c["estimator"] in (None,) and c["by_chrom"] is True and got_windows == want_windows and fracs_ok
+            ok = ok and bool(okc)
+            steps.append(dict(sample=c["arr"].meta.get("sample_id"), centred_with=dict(skip_low=c["skip_low"], par=c["par"]), shifted=bool(c.get("shifted")), corrections=got_windows))
         ok = ok and isinstance(ref_df, DF) and list(ref_df.cols)[:4] == ["chromosome", "start", "end", "gene"] and all(same(a, b) for a, b in zip(ref_df.cols["start"].v, first.data.cols["start"].v))
-        tb.cell(ok, dict(haploid_x_reference=hap, par_genome=par, skip_low=skip_low, fix_edge=fe, depth_column=with_depth, files_read=ev["read"],
-                         matrix_rows=[repr(x)[:40] for x in (logr or [])], per_sample_args=[dict(x=c["x"], y=c["y"], flat=[repr(v) for v in c["flat"]], flags=c["flags"]) for c in calls][:1]))
-    tb.done("the sample matrix is not [flat pseudo-sample, corrected samples in sample-name order] built with the pool's X / Y masks, flat profile, sexes and flags")
-    # order of the per-sample steps, by interpretation with recording summaries
-    fb = prog.fn(f"{REF}.bias_correct_logr")
-    tb2 = Table(chk, "matrix-shape", "bias_correct_logr: centre (median, skip_low, PAR), shift sex chromosomes, then the enabled corrections", fb.loc(), fb.qn)
-    for fg, fe, fr, low in itertools.product([True, False], [True, False], [True, False], [False, True]):
+        tb.cell(ok, dict(haploid_x_reference=hap, par_genome=par, skip_low=skip_low, fix_gc=fg, fix_edge=fe, depth_column=with_depth, mostly_no_coverage=low, files_read=ev["read"],
+                         matrix_rows=[repr(x)[:40] for x in (logr or [])], per_sample_steps=steps[:2]))
+    # with a genome sequence: GC and repeat fractions come from it (once, for the first file's bins); per sample GC, then repeats, then edges
+    for fg, fr, fe in itertools.product([False, True], repeat=3):
         W.reset()
-        model = Model()
-        ev = []
-        model.method_prims["center_all"] = lambda it, obj, *a, ev=ev, **k: ev.append(("center", a, k)) and None
-        model.prims[f"{REF}.shift_sex_chroms"] = lambda it, arr, sx, flat, x, y, ev=ev: ev.append(("shift", sx, flat, x, y)) and None
-
-        def cbw(it, arr, frac, key, ev=ev):
-            ev.append(("window", key))
-            return arr
-        model.prims["cnvlib.fix.center_by_window"] = cbw
-        it = Interp(prog, model)
-        rows = [dict(chromosome="chr1", start=i, end=i + 1, gene="g", log2=Term.sym(f"b{i}", -INF if low else -10, -16 if low else 10)) for i in range(3)]
-        arr = make_ga("CopyNumArray", rows, {"sample_id": "S"}, exact=True)
-        cols = {"gc": "GC", "rmask": "RMASK"}
-        out = tb2.guard(lambda: it.run(fb.qn, [arr, cols, "EDGE", "FLAT", "SEXES", "ISX", "ISY", fg, fe, fr, "SKIP", "PAR"]), f"gc={fg} edge={fe} rmask={fr} low={low}")
-        if out is None:
+        arrs = pool_arrays(3)
+        by_name = {names[k]: arrs[k] for k in range(3)}
+        try:
+            out, ev = run_block(prog, names, by_name, False, None, {}, True, fg, fe, fr, fasta="genome.fa")
+        except Raised as e:
+            tb.cell(False, dict(fasta=True, fix_gc=fg, fix_rmask=fr, fix_edge=fe, raised=str(e)))
             continue
-        want = [("center", (), {"skip_low": "SKIP", "diploid_parx_genome": "PAR"}), ("shift", "SEXES", "FLAT", "ISX", "ISY")]
-        if not low:
-            want += ([("window", "GC")] if fg else []) + ([("window", "RMASK")] if fr else []) + ([("window", "EDGE")] if fe else [])
-        kinds_ok = [e[0] for e in ev][:2] == ["center", "shift"] and sorted(map(repr, ev[2:])) == sorted(map(repr, want[2:])) and ev[:2] == want[:2]
-        tb2.cell(kinds_ok and isinstance(out, Vec) and all(same(a, b) for a, b in zip(out.v, arr.data.cols["log2"].v)), dict(fix_gc=fg, fix_edge=fe, fix_rmask=fr, mostly_no_coverage=low, events=[repr(e)[:60] for e in ev]))
-    tb2.done("a pooled sample is not median-centred, then shifted to the reference sex, then bias-corrected (in that order)")
-
+        except Undecided as e:
+            raise AnalysisError(f"C05-D4: cannot interpret load_sample_block with a genome sequence: {e}")
+        first = by_name["/d/a.targetcoverage.cnn"]
+        want_windows = (["GC_FROM_FASTA"] if fg else []) + (["RMASK_FROM_FASTA"] if fr else []) + (["edge"] if fe else [])
+        got = [["edge" if isinstance(k_, tuple) and k_ and k_[0] == "EDGE_BIAS" else k_ for _f, k_ in c["windows"]] for c in ev["bias"]]
+        fasta_ok = (ev.get("fasta", []) == [] and not (fg or fr)) or (len(ev.get("fasta", [])) == 1 and ev["fasta"][0][0] is first and ev["fasta"][0][1] == "genome.fa")
+        tb.cell(len(got) == 3 and all(g == want_windows for g in got) and fasta_ok, dict(fasta=True, fix_gc=fg, fix_rmask=fr, fix_edge=fe, corrections_per_sample=[[repr(x)[:20] for x in g] for g in got], want=want_windows,
+                                                                                         sequence_statistics_computed=len(ev.get("fasta", []))))
+    tb.done("the sample matrix is not [flat pseudo-sample, corrected samples in sample-name order], each sample median-centred, shifted to the reference sex with the pool's X / Y masks, "
+            "flat profile and sexes, then bias-corrected with the enabled corrections (in that order; none when most bins have no coverage)")
 
 def d5(chk, prog):
     chk.clause("D5", "estimator binding: log2 <- biweight_location, spread <- biweight_midvariance(initial = location), depth <- biweight_location of depths")
@@ -580,13 +615,25 @@ def d8(chk, prog):
              "later samples depend on earlier ones (file order)")
     eff = Effects(prog)
     atomic = C10._atomic(prog)
-    shared = {f"{REF}.bias_correct_logr": ("ref_columns", "ref_edge_bias", "ref_flat_logr", "sexes", "is_chr_x", "is_chr_y"),
-              f"{REF}.shift_sex_chroms": ("sexes", "ref_flat_logr", "is_chr_x", "is_chr_y")}
+    # the per-sample functions load_sample_block hands each sample to: their first parameter is the sample's own table (theirs to modify),
+    # every other parameter is computed once per pool and reused -- whatever those parameters are called or bundled into
+    lsb = prog.fn(f"{REF}.load_sample_block")
+    res_ = Resolver(prog)
+    per_sample = []
+    work = [lsb]
+    while work:
+        f_ = work.pop()
+        for n in own_nodes(f_.node):
+            if isinstance(n, ast.Call):
+                for c in res_.resolve_call(n, f_):
+                    if c.mod == REF and c is not lsb and c not in per_sample and len(c.params) >= 2:
+                        per_sample.append(c)
+                        work.append(c)
+    if not per_sample:
+        raise AnalysisError(f"{REF}: no per-sample function found under load_sample_block")
+    shared = {c.qn: tuple(c.params[1:]) for c in per_sample}
     for qn, params_ in shared.items():
         fi = prog.fn(qn)
-        missing = [p for p in params_ if p not in fi.params]
-        if missing:
-            raise AnalysisError(f"{qn}: parameters {missing} vanished")
         bad = []
         for p in params_:
             if p in eff.sum[qn].mut:
